@@ -35,8 +35,9 @@ class Policy:
         return "ok"
 
     def tls_want(self, sock, op):
-        """spurious WANT_READ/WANT_WRITE on a TLS send/recv that could make progress: True to inject"""
-        return False
+        """spurious want on a TLS send/recv that could make progress: 0 none, 1 the usual one (send: WANT_WRITE, recv: WANT_READ),
+        2 the opposite one (send: WANT_READ, recv: WANT_WRITE)"""
+        return 0
 
 
 class Net:
@@ -472,7 +473,11 @@ class FakeSSLSocket:
 
     def send(self, data, flags=0):
         raw = self.raw
-        if self.net.policy.tls_want(raw, "send"):
+        want = self.net.policy.tls_want(raw, "send")
+        if want == 2:        # TLS may need to READ (renegotiation, post-handshake messages) before it can send
+            raw._log("send", "WANT_READ")
+            raise _ssl.SSLWantReadError(_ssl.SSL_ERROR_WANT_READ, "fakenet: want read")
+        if want:
             raw._log("send", "WANT_WRITE")
             raise _ssl.SSLWantWriteError(_ssl.SSL_ERROR_WANT_WRITE, "fakenet: want write")
         try:
@@ -486,7 +491,11 @@ class FakeSSLSocket:
 
     def recv(self, bs, flags=0):
         raw = self.raw
-        if self.net.policy.tls_want(raw, "recv"):
+        want = self.net.policy.tls_want(raw, "recv")
+        if want == 2:        # ... or to WRITE before it can receive
+            raw._log("recv", "WANT_WRITE")
+            raise _ssl.SSLWantWriteError(_ssl.SSL_ERROR_WANT_WRITE, "fakenet: want write")
+        if want:
             raw._log("recv", "WANT_READ")
             raise _ssl.SSLWantReadError(_ssl.SSL_ERROR_WANT_READ, "fakenet: want read")
         try:
